@@ -56,8 +56,12 @@ func layout(dir string, c Case, set *par2ref.Set, canonical bool) {
 		foreign = par2ref.NewSet(c.Slice, map[string][]byte{"elsewhere.bin": []byte("belongs to some other recovery set; long enough for two slices maybe")})
 	}
 	s := c.Scramble | 1
-	mix := func(own []par2ref.Packet, first par2ref.Packet) []byte {
+	mix := func(own []par2ref.Packet, first par2ref.Packet, isIndex bool) []byte {
 		ps := append([]par2ref.Packet{}, own...)
+		if !isIndex && !canonical && c.Scramble != 0 {
+			// only the index file has to start with a packet of its own set
+			ps = append(ps, first)
+		}
 		if !canonical && c.Scramble != 0 {
 			// duplicates
 			n := len(ps)
@@ -84,11 +88,14 @@ func layout(dir string, c Case, set *par2ref.Set, canonical bool) {
 				ps[i], ps[j] = ps[j], ps[i]
 			}
 		}
-		// the file starts with a packet of its own set
+		if !isIndex && !canonical && c.Scramble != 0 {
+			return par2ref.EncodeAll(ps)
+		}
+		// the index file starts with a packet of its own set
 		return par2ref.EncodeAll(append([]par2ref.Packet{first}, ps...))
 	}
 	crit := set.CriticalPackets()
-	idx := mix(crit, set.CreatorPacket())
+	idx := mix(crit, set.CreatorPacket(), true)
 	os.WriteFile(filepath.Join(dir, c.Base+".par2"), idx, 0o644)
 	if canonical {
 		seen := map[int]bool{}
@@ -99,7 +106,7 @@ func layout(dir string, c Case, set *par2ref.Set, canonical bool) {
 				}
 				seen[e] = true
 				ps := append(append([]par2ref.Packet{}, crit...), set.RecoveryPacket(e))
-				os.WriteFile(filepath.Join(dir, fmt.Sprintf("%s.vol%04d+01.par2", c.Base, e)), mix(ps, set.CreatorPacket()), 0o644)
+				os.WriteFile(filepath.Join(dir, fmt.Sprintf("%s.vol%04d+01.par2", c.Base, e)), mix(ps, set.CreatorPacket(), false), 0o644)
 			}
 		}
 		return
@@ -109,7 +116,7 @@ func layout(dir string, c Case, set *par2ref.Set, canonical bool) {
 		for _, e := range v.Exps {
 			ps = append(ps, set.RecoveryPacket(e))
 		}
-		os.WriteFile(filepath.Join(dir, c.Base+"."+v.Suffix+".par2"), mix(ps, set.CreatorPacket()), 0o644)
+		os.WriteFile(filepath.Join(dir, c.Base+"."+v.Suffix+".par2"), mix(ps, set.CreatorPacket(), false), 0o644)
 	}
 }
 
